@@ -909,6 +909,9 @@ def main(prop, families=None):
         chk.extra["large_column_scenarios"] = large_column_scenarios(chk, rs, t)
     if prop in ("C02", "C03", "C04", "C06", "C07"):
         chk.extra["large_grid_scenarios"] = large_grid_scenarios(chk, rs, prop, REPLAYS[prop], t)
+    if rs.MODIFIED:
+        chk.violation("the solver modifies argument arrays in place (%s): every relation between two solves that share their arguments is void" % sorted(set(rs.MODIFIED)),
+                      {"kind": "inputs_modified", "arguments": sorted(set(rs.MODIFIED))}, klass={"check": "inputs_modified"})
     validate_traces(chk, prop, rs, tracefile, limit=4000 if t == "quick" else 40000)
     if t == "thorough" and prop == "C11":
         # the repository's own tests, recorded with the hooks on (sizes far beyond the bounded model)
